@@ -171,6 +171,17 @@ def make_histories(p, rng, quick):
             d = rng.choice(pool) if pool else ["get_res0_cells"]        # an earlier call again
         h1.append(d)
         pool.append(d)
+    # every resolution under both spellings of the number (3 and 3.0 are equal as dictionary keys), in both orders,
+    # followed by a call that consumes the counts
+    for r in range(-1, 31):
+        first, second = ("_float", "") if r % 2 else ("", "_float")
+        h1.append(["cell_area" + first, r])
+        h1.append(["get_num_cells" + second, r])
+        h1.append(["get_num_cells" + first, r])
+        h1.append(["cell_area" + second, r])
+        if 1 <= r <= 5:
+            seg = cells.real_id({"r": 1, "f": r % p["NF"], "s": r % p["NS"], "d": []})
+            h1.append(["uncompact", ["%016x" % seg], r])
     H.append(("H1", h1))
     # H2: meridians lon = 18 k - 93 are mirror planes of the dodecahedron frame: points on them can be
     # bit-for-bit equidistant from two face centres.  Approach from either side, then ask the exact point.
